@@ -34,9 +34,11 @@ Check c07_replies_whole_under_cancellation_and_writes :
     Inv packet parse ver_of is_keepalive version m verify pong c s ->
     WInv packet is_keepalive pong s (done ++ acc) ->
     conv_ok packet is_keepalive pong done (aconv packet parse ver_of is_keepalive version m verify pong fuel c s rs ws cancels wsched acc).
+Check c07_model_state_is_the_struct : state_tied = true.
 Print Assumptions c07_at_most_one_reply_written_first.
 Print Assumptions c07_reply_iff_keepalive.
 Print Assumptions c07_history_trace.
 Print Assumptions c07_pong_frames.
 Print Assumptions c07_caller_writes_do_not_matter.
 Print Assumptions c07_replies_whole_under_cancellation_and_writes.
+Print Assumptions c07_model_state_is_the_struct.
